@@ -42,6 +42,32 @@ def case_id(line):
     return "k" + hashlib.sha256(json.loads(line).encode()).hexdigest()[:12]
 
 
+def stratified(lines, n, rng):
+    """A sample that touches every (permission string, pre-existing output, OpenAPI version, optional-section subset size) combination
+    before it repeats one: the facts the honoured-in-output clauses depend on."""
+    strata = collections.OrderedDict()
+    for l in lines:
+        try:
+            cs = json.loads(json.loads(l)[5:])
+        except Exception:
+            cs = {}
+        vals = {p_["path"]: (p_.get("op"), p_.get("value")) for p_ in cs.get("patches", [])}
+        key = (str(vals.get("routesConfig.outputFilePerms")), str(cs.get("stale")), str(vals.get("openapiGeneratorConfig.openapi")),
+               str(vals.get("openapiGeneratorConfig.info.contact")), str(vals.get("openapiGeneratorConfig.info.license")))
+        strata.setdefault(key, []).append(l)
+    groups = list(strata.values())
+    rng.shuffle(groups)
+    for g_ in groups:
+        rng.shuffle(g_)
+    picked, i = [], 0
+    while len(picked) < n and any(groups):
+        g_ = groups[i % len(groups)]
+        if g_:
+            picked.append(g_.pop())
+        i += 1
+    return picked
+
+
 def is_known(known, what):
     for k in known:
         if k.get("match") and re.search(k["match"], what):
@@ -82,10 +108,11 @@ def run(tier):
     lines_by_id = {}
     with open(cases, "w") as f:
         for (cfgname, take), out, r in emitted:
-            lines = [l for l in open(out) if l.startswith('"CASE ')]
+            # (several TLC workers print in any order: sort, so that the sample is a function of the seed alone)
+            lines = sorted(l for l in open(out) if l.startswith('"CASE '))
             total = len(lines)
             if take is not None and len(lines) > take:
-                lines = rng.sample(lines, take)
+                lines = stratified(lines, take, rng)
             if not lines:
                 raise c.Trouble("no cases from " + cfgname)
             for l in lines:
